@@ -21,7 +21,7 @@ import numpy as np
 import sympy as sp
 
 from ..core import norm, calls_in, kwarg, AnalysisError, walk_no_nested, is_setter
-from ..symx import SymEval, Path, SymObj, symarray, is_zero, equal, Opaque, module_aliases, arr
+from ..symx import SymEval, Path, SymObj, symarray, is_zero, equal, Opaque, WouldRaise, module_aliases, arr
 from .. import effects
 
 BOX = 'atomman/core/Box.py'
@@ -385,9 +385,13 @@ def inside(ctx):
     below = ctx.fn(PLANE, 'Plane.below')
     nrm, pt = symarray('n', (3,), real=True), symarray('t', (3,), real=True)
     pl = SymObj(plane, {'_Plane__normal': nrm, '_Plane__point': pt}, 'plane')
-    for shp in ((2, 3), (2, 2, 3)):
+    for shp in ((2, 3), (2, 2, 3), (3, 3, 3), (2, 3, 3)):
         P = symarray('p', shp, real=True)
-        res = ev.call_fn(below, [pl, P, True], {}, Path({}))
+        try:
+            res = ev.call_fn(below, [pl, P, True], {}, Path({}))
+        except WouldRaise as e:
+            ctx.ob('INSIDE', PLANE + '::Plane.below', 'points of leading shape %s are tested one by one (result shape %s)' % (shp[:-1], shp[:-1]), False, str(e), node=below, key='below shape %s' % (shp,))
+            continue
         ok = hasattr(res, 'shape') and tuple(res.shape) == shp[:-1]
         if ok:
             for idx in np.ndindex(shp[:-1]):
